@@ -1,10 +1,55 @@
-(** C13 - left_right: property theorems (statements only; proofs live in Proof/). *)
+(** C13 - left_right: property theorems (statements only; proofs live in Proof/LeftRightInv.v).
+    [LeftRightDefs] is the step-level model tied to left_right.hpp by trace correspondence.
+    [bstep n] is [step] restricted to thread ids below n: the reader counters are 64-bit, so with
+    2^64 simultaneous readers exclusion would fail; all theorems that need the counters assume n < 2^64. *)
 From Coq Require Import NArith List.
-From XV Require Import Base.Word Conc.Lts Model.LeftRightDefs.
+From XV Require Import Base.Word Conc.Lts Model.LeftRightDefs Proof.LeftRightInv.
+Import ListNotations.
 Local Open Scope N_scope.
 
-(** sanity obligation on the model (replaced/extended by the invariant theorems of Proof/LeftRightInv.v):
-    the initial state is quiescent and both instances agree *)
-Theorem C13_init_consistent : lx (sh init) = rx (sh init) /\ ly (sh init) = ry (sh init) /\ mutex (sh init) = None.
-Proof. repeat split; reflexivity. Qed.
-Print Assumptions C13_init_consistent.
+(** writers are serialised by the mutex *)
+Theorem C13_mutex : forall st, reach init step st ->
+  (forall w, mutex (sh st) = Some w <-> wpc (th st w) = true) /\
+  (forall w1 w2, wpc (th st w1) = true -> wpc (th st w2) = true -> w1 = w2).
+Proof. exact lr_mutex. Qed.
+Print Assumptions C13_mutex.
+
+(** MAIN RESULT: a read functor never runs on the instance an update functor is modifying
+    (any number of readers and writers below 2^64, any program, any schedule) *)
+Theorem C13_exclusion : forall n st, N.of_nat n < 2 ^ 64 -> reach init (bstep n) st ->
+  forall r w v i, (th st r = R4 v i \/ exists x, th st r = R5 v i x) ->
+  forall d l, ((th st w = U2 d l \/ th st w = U3 d l) -> other l <> i) /\
+              ((th st w = U9 d l \/ th st w = U10 d l) -> l <> i).
+Proof. exact lr_exclusion. Qed.
+Print Assumptions C13_exclusion.
+
+(** a read never returns a mixture of two states *)
+Theorem C13_read_consistent : forall n st, N.of_nat n < 2 ^ 64 -> reach init (bstep n) st ->
+  forall r v x y, th st r = R6 v x y -> x = y.
+Proof. exact lr_read_consistent. Qed.
+Print Assumptions C13_read_consistent.
+
+(** every update is applied exactly once to each instance, in the same order: at every state in
+    which no writer is active both instances hold the sum of all updates *)
+Theorem C13_twice : forall st, reach init step st -> mutex (sh st) = None ->
+  lx (sh st) = sumw (g_updates st) /\ ly (sh st) = sumw (g_updates st) /\
+  rx (sh st) = sumw (g_updates st) /\ ry (sh st) = sumw (g_updates st).
+Proof. exact lr_twice. Qed.
+Print Assumptions C13_twice.
+
+(** reads are linearizable with updates: the value a read returns is the sum of a prefix of the
+    update sequence that is the current one or the one just before the update in progress *)
+Theorem C13_read_value : forall n st, N.of_nat n < 2 ^ 64 -> reach init (bstep n) st ->
+  forall r, match th st r with
+  | R4 v i => recent (g_updates st) (get_x (sh st) i)
+  | R5 v i x => x = get_x (sh st) i /\ recent (g_updates st) x
+  | R6 v x y => recent (g_updates st) x /\ y = x
+  | _ => True end.
+Proof. exact lr_read_value. Qed.
+Print Assumptions C13_read_value.
+
+(** bounded reachability covers every executable run whose actions only name threads below n *)
+Theorem C13_bounded_runs : forall n acts, Forall (fun a => (tid a < n)%nat) acts ->
+  reach init (bstep n) (fst (fst (run step init acts))).
+Proof. exact run_breach. Qed.
+Print Assumptions C13_bounded_runs.
